@@ -56,12 +56,14 @@ def gen(tier, seed):
         triples += [tuple(rnd.sample(S, 3)) for _ in range(10)]
     k = 0
 
-    def add(fn, sig, body, pre, what, args="a: float", timeout=None):
+    def add(fn, sig, body, pre, what, args="a: float", timeout=None, viol=None):
         fn = "h_" + fn
         L.extend(["def %s(%s) -> bool:" % (fn, args), '    """'] + ["    " + p for p in pre] + ["    post: _", '    """', "    return " + body, ""])
         c = {"fn": fn, "what": what, "sig": sig, "structure": "units"}
         if timeout:
             c["timeout"] = timeout
+        if viol:
+            c["viol"] = viol
         conds.append(c)
     for (u1, u2, u3) in triples:
         for d in (DIMS if tier != "quick" else [DIMS[(k + j) % len(DIMS)] for j in range(3)]):
@@ -96,6 +98,9 @@ def gen(tier, seed):
         u1, u2 = [("A", "B"), ("C", "D"), ("G", "J"), ("B", "K"), ("E", "H")][k3]
         add("array_forms_%s" % form, "c06-array-forms", "array_convert_forms(ia, ib, %r, %r, %r, %r)" % (u1, u2, DIMS[(k3 + 3) % len(DIMS)] if DIMS[(k3 + 3) % len(DIMS)] != (0, 0, 0) else (1, -1, 0), form),
             ["pre: 0 <= ia <= 3 and 0 <= ib <= 3"], "UnitArray.convert with a %s target agrees element-wise with the scalar conversion (lattice values incl. negative and zero)" % form, args="ia: int, ib: int", timeout=120)
+    add("all_systems", "c06-all-systems", "all_systems(si_, ti, qi, di)", ["pre: 0 <= si_ <= 10 and 0 <= ti <= 9 and 0 <= qi <= 9 and 0 <= di <= 5"],
+        "ALL 1100 unit systems x 6 dimension vectors, visited one after the other in one process: conversion to / from the default system equals the SI-table factor (no dependence on earlier conversions)",
+        args="si_: int, ti: int, qi: int, di: int", viol="a conversion factor is wrong for some unit system, or depends on which conversions ran earlier in the process")
     add("array_convert_3", "c06-array", "array_convert((x, y, z), 'B', 'D', (2, -1, 1))", ["pre: 1e-3 < x < 1e3 and 1e-3 < y < 1e3 and 1e-3 < z < 1e3"],
         "UnitArray.convert agrees element-wise with the scalar path (magnitudes realised at the numpy boundary)", args="x: float, y: float, z: float", timeout=20)
     return "\n".join(L), conds
@@ -110,4 +115,4 @@ def run(rec):
     table_obligations(rec)
     text, conds = gen(rec.tier, rec.seed)
     mod = pysym.write_module("hgen_C06", text)
-    pysym.run_conditions(rec, mod, conds, default_timeout=60 if rec.tier == "quick" else 180)
+    pysym.run_auto(rec, mod, conds, default_timeout=60 if rec.tier == "quick" else 180)
